@@ -196,8 +196,8 @@ func runC27() {
 	thorough := h.Arg("--tier") == "thorough"
 	seed := int64(h.ArgInt("--seed", 1))
 	workers := h.ArgInt("--workers", 8)
-	nflip := h.ArgInt("--flips", 40)        // quick: random covered offsets per signature
-	maxExh := h.ArgInt("--exhaustive", 61440) // thorough: files up to this size get every covered offset
+	nflip := h.ArgInt("--flips", 60)              // quick: random covered offsets per signature
+	maxExh := h.ArgInt("--exhaustive", 61440)     // thorough: files up to this size get every covered offset
 	cpuBudget := float64(h.ArgInt("--cpu", 2400)) // thorough: CPU seconds for stride-sampled (large) documents
 	var edits []edit
 	if err := h.EachLine(h.Arg("--edits"), func(l []byte) error {
